@@ -39,14 +39,17 @@ Definition old_restores : list (string * string) :=
 (* aliased = true: cond_dict = condition.__dict__ *)
 (* the old save path also drew a batch from the Solver2D train generator and advanced the global
    `random` module for BundleSolver1D (fixed by 8858019, 50b4f76) *)
-Definition old_effects : list (string * string) := [("Solver2D", "draw:train"); ("BundleSolver1D", "pyrandom")].
+Definition old_effects : list (string * string) :=
+  [("Solver2D", "draw:train"); ("BundleSolver1D", "pyrandom");
+   (* the preview helpers evaluated solver.get_solution()(...) outside any fork_rng (fixed by 56911ea) *)
+   ("Solver1D", "forward"); ("Solver2D", "forward"); ("BundleSolver1D", "forward")].
 Definition old_facts : srcfacts := mkFacts true true true true old_save_dict old_ctor old_restores old_effects.
 
 Local Close Scope string_scope.
 
 (* a Solver2D whose only condition holds one number and one lambda with retrievable source *)
 Definition c0 : cond := mkCond 7 [("x_min"%string, ANum 0 1); ("x_min_val"%string, AFun 1 true)].
-Definition s0 : state := mkState K2D [11%Z] 5%Z [] [] None None [c0] 0 0 [] (mkEnv 0 0 0 0 0).
+Definition s0 : state := mkState K2D [11%Z] 5%Z [] [] None None [c0] 0 0 [] (mkEnv 0 0 0 0 0 false).
 
 (* save() altered the solver even when serialisation FAILED *)
 Theorem old_save_preserves_refuted : exists s ok, ok = false /\ fst (save old_facts s ok) <> s.
@@ -56,7 +59,7 @@ Proof. exists s0, false. split; [reflexivity|]. vm_compute. discriminate. Qed.
 Theorem old_save_preserves_numbers_refuted :
   exists s, fst (save old_facts s false) <> s /\ conds s = [mkCond 3 [("t_0"%string, ANum 0 1)]].
 Proof.
-  exists (mkState K1D [11%Z] 5%Z [] [] None None [mkCond 3 [("t_0"%string, ANum 0 1)]] 0 0 [] (mkEnv 0 0 0 0 0)).
+  exists (mkState K1D [11%Z] 5%Z [] [] None None [mkCond 3 [("t_0"%string, ANum 0 1)]] 0 0 [] (mkEnv 0 0 0 0 0 false)).
   split; [vm_compute; discriminate | reflexivity].
 Qed.
 
@@ -78,7 +81,7 @@ Proof. exists s0. split; reflexivity. Qed.
 
 Theorem old_save_advances_python_random_refuted :
   exists s, kind s = KBundle /\ py_random (env (fst (save old_facts s false))) = S (py_random (env s)).
-Proof. exists (mkState KBundle [7%Z] 5%Z [] [] None None [] 0 1 [[]] (mkEnv 0 0 0 0 0)). split; reflexivity. Qed.
+Proof. exists (mkState KBundle [7%Z] 5%Z [] [] None None [] 0 1 [[]] (mkEnv 0 0 0 0 0 false)). split; reflexivity. Qed.
 
 Theorem old_twin_diverges_refuted :
   exists (tr : state -> epoch_data) s, kind s = K2D /\
@@ -86,4 +89,14 @@ Theorem old_twin_diverges_refuted :
 Proof.
   exists (fun s => mkEpoch (1#1)%Q (1#1)%Q [Z.of_nat (drawn_train (env s))] 0%Z (1, 1)), s0.
   split; [reflexivity|]. vm_compute. discriminate.
+Qed.
+
+(* with networks whose forward pass draws random numbers (Dropout in training mode) the old save()
+   advanced torch's global RNG, for every solver kind (G3) *)
+Theorem old_save_advances_torch_rng_refuted :
+  forall k, exists s, kind s = k /\ stochastic (env s) = true /\
+    torch_rng (env (fst (save old_facts s false))) = S (torch_rng (env s)).
+Proof.
+  intros k. exists (mkState k [7%Z] 5%Z [] [] None None [] 0 0 [] (mkEnv 0 0 0 0 0 true)).
+  destruct k; repeat split.
 Qed.
